@@ -100,11 +100,19 @@ def tail(s, n=40):
     return '\n'.join(s.strip().split('\n')[-n:])
 
 
-def run_mc(name, scratch, workers=None, timeout=3600, extra=(), env=None, cfg=None):
-    """Model-checks spec/mc/<name>.tla with <name>.cfg. Any failure is a specification error."""
+def run_mc(name, scratch, workers=None, timeout=3600, extra=(), env=None, cfg=None, expect_violation=None):
+    """Model-checks spec/mc/<name>.tla with <name>.cfg. Any failure is a specification error.
+    expect_violation names an invariant that TLC MUST find violated (negative-control models)."""
     mod = os.path.join(SPEC, 'mc', name + '.tla')
     cfgp = os.path.join(SPEC, 'mc', (cfg or name) + '.cfg')
     r = tlc(mod, cfgp, scratch, workers=workers or NCPU, heap='12g', timeout=timeout, extra=extra, env=env, gcthreads=4)
+    if expect_violation:
+        if ('Invariant %s is violated' % expect_violation) not in r['out']:
+            raise HarnessError('negative control %s/%s: TLC did not find the expected violation of %s:\n%s'
+                               % (name, cfg or name, expect_violation, tail(r['out'], 30)))
+        log('[mc] %-14s negative control: TLC found the expected violation of %s (%d states, %.1fs)'
+            % (cfg or name, expect_violation, r['distinct'], r['secs']))
+        return r
     if r['rc'] != 0 or 'No error has been found' not in r['out']:
         raise HarnessError('MC %s failed (specification error, not a verdict about the code):\n%s'
                            % (name, tail(r['out'], 60)))
@@ -115,7 +123,7 @@ def run_mc(name, scratch, workers=None, timeout=3600, extra=(), env=None, cfg=No
 
 # ------------------------------------------------------------------ drivers
 
-def run_driver(harness, name, tier, seed, outdir, shards=1, per=60000, timeout=3600, extra=()):
+def run_driver(harness, name, tier, seed, outdir, shards=1, per=60000, timeout=3600, extra=(), env=None):
     """Runs `harness drive <name>` as `shards` parallel processes; returns summaries."""
     os.makedirs(outdir, exist_ok=True)
     procs = []
@@ -123,7 +131,7 @@ def run_driver(harness, name, tier, seed, outdir, shards=1, per=60000, timeout=3
     for i in range(shards):
         cmd = [harness, 'drive', name, '-tier', tier, '-seed', str(seed), '-out', outdir,
                '-shard', str(i), '-nshards', str(shards), '-per', str(per)] + list(extra)
-        procs.append(subprocess.Popen(cmd, stdout=subprocess.PIPE, stderr=subprocess.PIPE, text=True))
+        procs.append(subprocess.Popen(cmd, stdout=subprocess.PIPE, stderr=subprocess.PIPE, text=True, env=env))
     sums = []
     for p in procs:
         try:
@@ -334,3 +342,24 @@ def graph_leg(name, module, tier_env, to_events, what, workers=8, mc_module=None
                 'samples': [{'graph_point_accepted_by_code': json.load(open(gfile))['accepted'][:1]}]}
         return part, bads
     return leg
+
+
+def apalache_masks_leg(ctx):
+    """C19: the mask lemma of RandomID for all pairs of 63-bit draws, discharged by Apalache
+    (unbounded integers) on spec/apalache/Masks.tla. A failure is a specification error."""
+    scratch = ctx['scratch']
+    d = tempfile.mkdtemp(prefix='apalache-', dir=scratch)
+    shutil.copy(os.path.join(SPEC, 'apalache', 'Masks.tla'), d)
+    t0 = time.time()
+    cmd = ['apalache-mc', 'check', '--length=1', '--inv=Inv', '--out-dir=' + os.path.join(d, 'out'), 'Masks.tla']
+    try:
+        p = subprocess.run(cmd, cwd=d, capture_output=True, text=True, timeout=600,
+                           env=dict(os.environ, JVM_ARGS='-Xmx4g -Djava.io.tmpdir=' + d))
+    except subprocess.TimeoutExpired:
+        raise HarnessError('apalache timed out on Masks.tla')
+    out = p.stdout + p.stderr
+    if 'The outcome is: NoError' not in out:
+        raise HarnessError('apalache did not prove the mask lemma:\n' + tail(out, 30))
+    log('[apalache] Masks.tla: Inv holds for all pairs of 63-bit draws (%.1fs)' % (time.time() - t0))
+    return ({'kind': 'mbt', 'info': {'apalache': 'Masks.tla Inv, --length=1, all a,b in 0..2^63-1', 'outcome': 'NoError',
+                                     'secs': round(time.time() - t0, 1)}}, [])
